@@ -178,6 +178,7 @@ def summarize(pid, results, ev, findings=None):
     code = C.EXIT_OK
     bad = []
     known_hit = 0
+    known_by_key = {}
     for r in results:
         exp = r["expect"]
         st = r["status"]
@@ -185,8 +186,8 @@ def summarize(pid, results, ev, findings=None):
             key = exp.split(":", 1)[1]
             if st == "violated":
                 if key in findings:
-                    C.known_finding(pid, f"{key}: {findings[key].get('what', '')} [model {r['main']['call']}; replay {r['replay']}]")
                     known_hit += 1
+                    known_by_key.setdefault(key, []).append(r)
                 else:
                     C.violation(pid, r["replay"])
                     ev.violations += 1
@@ -205,6 +206,9 @@ def summarize(pid, results, ev, findings=None):
             code = C.EXIT_VIOLATION
         else:
             bad.append(r)
+    for key, rs in known_by_key.items():  # one line per listed finding
+        C.known_finding(pid, f"{key}: {findings[key].get('what', '')} [{len(rs)} condition(s) of exactly this class; e.g. {rs[0]['main']['call']}; replay {rs[0]['replay']}]")
+    ev.coverage["known_findings_hit"] = sorted(known_by_key)
     cov = ev.coverage
     cov.setdefault("conditions", 0)
     cov["conditions"] += n
